@@ -422,6 +422,30 @@ class Exec(F):
         return really_accepts(fn, c[0], c[1], c[2])
 
 
+class ChainExec(F):
+    """Execution model of a stack of forwarding layers: layers[0] (outermost def-list) receives the call and
+    forwards its stars, with the plain site f(*args, **kwargs), to layers[1], ... the last layer forwards to
+    ``final``.  Real evaluation calls ``real`` (the really built stack)."""
+    def __init__(self, layers, final, real):
+        self.layers = list(layers); self.final = final; self.realfn = real
+
+    def z3(self, env):
+        import z3
+        term = Base()
+        cs = []
+        site = Site(0, (), True, True)
+        for o in self.layers:
+            n, kw, fo = term.z3(env)
+            cs.append(accept_z3(o, n, kw, fo))
+            term = Fwd(o, site, term)
+        n, kw, fo = term.z3(env)
+        cs.append(accept_z3(self.final, n, kw, fo))
+        return z3.And(*cs)
+
+    def real(self, call):
+        return really_accepts(self.realfn, call[0], call[1], call[2])
+
+
 _wrap_cache = {}
 
 
